@@ -45,7 +45,7 @@ BOUNDS = {
     "quick": {"schedules": "2 processes: preemption bound 2; 3 processes: bound 1",
               "kill": "1 builder x every point x {1 fresh loader; 2 fresh loaders, <=1 preemption}; "
                       "2 concurrent loaders, each killed at every point of the 0-preemption schedules, then 1 fresh loader"},
-    "thorough": {"schedules": "2 processes: unbounded preemptions; 3 processes: bound 2; 4 processes: bound 1; 16 processes: bound 0 + single preemptions",
+    "thorough": {"schedules": "2 processes: preemption bound 3; 3 processes: bound 2; 4 processes: bound 1; 16 processes: bound 0 + single preemptions (capped)",
                  "kill": "as quick + 2 concurrent loaders x every victim point x <=2 preemptions; second model: the product sphere@hardsphere (two libraries built in sequence), 2 processes <= 1 preemption + kill points"},
 }
 CASE_TIMEOUT = 300
@@ -296,7 +296,7 @@ def explore(ctx):
     report.coverage["determinism_replay"] = {"trace": a["p1"]["trace"], "identical": True}
 
     for model in STATE["models"]:
-        fams = [(2, 2), (3, 1)] if quick else [(2, 99), (3, 2), (4, 1), (16, 0)]
+        fams = [(2, 2), (3, 1)] if quick else [(2, 3), (3, 2), (4, 1), (16, 0)]
         if model != "sphere":
             fams = [(2, 1)]
         for n, bound in fams:
